@@ -14,8 +14,9 @@
    the callee code below the goroutine closures (m.Close(), PostProcessDefinitionRegistry): the latter is
    checked dynamically by the race detector on every run.  The closure footprint `fp` is extracted from the
    source with go/ast on every run (Facts_C20.v) and `footprint_race_free fp = true` re-proved there. *)
-From Coq Require Import List Arith Bool.
+From Coq Require Import List Arith Bool NArith.
 From IocVerif Require Import Model.SyncMap Proofs.SyncMapProofs Model.Conc Proofs.RaceProofs.
+From IocVerif Require Import Model.ScanCheck Proofs.ScanCheckProofs.
 Import ListNotations.
 
 (* ---------- atomicity of the containers ---------------------------------------------------------------- *)
@@ -116,6 +117,28 @@ Proof.
   - unfold range_inv. rewrite Hst. exact I.
   - split; [assumption|]. unfold range_inv in Hinv. rewrite Hend in Hinv. exact Hinv.
 Qed.
+
+(* What a Range / ToArray / ForEach owes although it is not a snapshot (Model/ScanCheck.v): per reported pair
+   PROVENANCE (the pair is the mapping of its key at some instant of the scan: written by an operation invoked before
+   the scan returned and not definitely overwritten or deleted before the scan was invoked) and per key COMPLETENESS
+   (a mapping that was stable over the whole scan is reported); the same for Load / Exists / a load-or-store that
+   loaded.  `scan_check` evaluates both on histories recorded with tickets from the real containers under real
+   parallelism.  It is a NECESSARY condition for linearizability, even with every scan taken to be atomic: a history
+   that has a sequential witness W (the same records, in an order that is legal for the sequential specification and
+   in which no record returned before an earlier one was invoked) passes.  So the oracle never rejects a linearizable
+   history; it rejects e.g. a pair (k, zero value) that no operation stored. *)
+Theorem c20_scan_check_complete : forall recs W,
+  (forall x, In x recs <-> In x W) -> legal [] (seqh W) -> rt_ok W -> scan_check recs [] = true.
+Proof. exact scan_check_complete. Qed.
+
+(* a scan that was stopped early (its callback returned false) reports some of the pairs present at its place in the
+   witness: its provenance check passes *)
+Theorem c20_partial_scan_ok : forall recs W p q inv res l,
+  (forall x, In x recs <-> In x W) -> W = p ++ q -> legal [] (seqh W) -> rt_ok W ->
+  (forall a, In a p -> N.ltb res (t_inv a) = false) -> (forall b, In b q -> N.ltb (t_res b) inv = false) ->
+  sorted_from 0 l = true -> (forall pr, In pr l -> get (final [] (seqh p)) (fst pr) = Some (snd pr)) ->
+  obs_ok (effects recs) inv res (fun _ => true) false l = true.
+Proof. exact partial_scan_ok. Qed.
 
 (* ---------- data races of the two concurrent phases --------------------------------------------------- *)
 
